@@ -199,6 +199,13 @@ EXPLORE.update({
            "enumeration: a returned value equals the exact probability, a returned interval contains it and is tight on "
            "completion, the probabilities of the proofs listed per query sum to its exact probability.",
 })
+EXPLORE.update({
+    "C31": "Run-time contract on formula_to_bn, called the way the bn task calls it, for seeded evidence-free acyclic programs: "
+           "the factors of the returned network, multiplied out by an independent exact evaluator, give every exported query "
+           "variable the probability ProbLog reports. The export is checked strictly on programs without negation, annotated "
+           "disjunctions and aliased nodes; the bn task has six listed known findings (it crashes or mis-exports on the other "
+           "classes, and on deterministic queries).",
+})
 FUNCTION_LEVEL = ("C11", "C13", "C14", "C18", "C17")
 FN_BOUNDED_TECH = ("run-time contract (pre/post-condition against an independent reference) on the real functions over a "
                    "bounded input family; the deductive contracts planned for these functions were not built, so nothing "
